@@ -340,7 +340,7 @@ def load_config_cases():
                     self.tag = tag
 
                 def with_overrides(self, source, **kw):
-                    log.append((source, kw.get("_marker")))
+                    log.append((source, kw.get("_marker"), dict(kw)))
                     return Layer(self.tag + [(source, kw.get("_marker"))])
 
             base = Layer([])
@@ -351,6 +351,14 @@ def load_config_cases():
 
             cli = CLI()
             cli._marker = "cli"
+            # parsed options of every kind: a value of unknown truthiness (0, "", empty set ... are legitimate
+            # explicit values), explicit zero / empty values, and an option that was not given (None)
+            opaque = OpaqueValue("cli_option")
+            cli.some_option = opaque
+            cli.loop = 0
+            cli.solver_command = ""
+            cli.panic_error_codes = set()
+            cli.width = None
 
             class AP:
                 def parse_args(self, a):
@@ -371,8 +379,12 @@ def load_config_cases():
             r = interp.call(hm.load_config, [["--x"]], {})
             want = [(ConfigSource.config_file, f) for f in files] + [(ConfigSource.command_line, "cli")]
             ctx.oblige("layers-bottom-to-top: default, config files in order, command line", z3.BoolVal(isinstance(r, Layer) and r.tag == want), info={"got": str(getattr(r, "tag", r))[:200]})
+            top = [kw for (src, mk, kw) in log if src == ConfigSource.command_line]
+            given = top[0] if len(top) == 1 else {}
+            ok = len(top) == 1 and set(given) == set(vars(cli)) and all(given[k] is v or given[k] == v for k, v in vars(cli).items() if k in given)
+            ctx.oblige("the command-line layer receives every parsed option unchanged, whatever its truth value (an explicit 0, '' or empty set is a value; only None means `not given`, and that is with_overrides' business)", z3.BoolVal(ok), info={"missing": str(sorted(set(vars(cli)) - set(given)))})
 
-        out.append(Case(f"{PROP}/__main__.load_config", f"{nfiles} config file(s)", harness, sources=("halmos.__main__:load_config",)))
+        out.append(Case(f"{PROP}/__main__.load_config", f"{nfiles} config file(s)", harness, replay=replay_load_config_falsy, sources=("halmos.__main__:load_config",)))
     return out
 
 
@@ -408,6 +420,24 @@ def replay_with_overrides(r):
         if got != (falsy, ConfigSource.command_line):
             return {"reproduced": True, "detail": f"config file sets {name}, command line sets {name}={falsy!r}: effective value is {got!r}, expected ({falsy!r}, command_line)", "inputs": [name, repr(falsy)]}
     return {"reproduced": False, "detail": "real Config layers honour falsy overrides"}
+
+
+def replay_load_config_falsy(r):
+    """real load_config with a real halmos.toml: explicit falsy command-line values must win over the file"""
+    import os
+    import tempfile
+
+    with tempfile.TemporaryDirectory() as d:
+        open(os.path.join(d, "halmos.toml"), "w").write("[global]\nloop = 7\nsolver-timeout-assertion = 5000\nwidth = 9\n")
+        for argv, name, want in ((["--loop", "0"], "loop", 0), (["--solver-timeout-assertion", "0"], "solver_timeout_assertion", 0), (["--width", "0"], "width", 0)):
+            try:
+                cfg = hm.load_config(["--root", d] + argv)
+                got = getattr(cfg, name)
+            except BaseException as e:  # noqa
+                return {"reproduced": None, "detail": f"load_config raised {type(e).__name__}: {e}"}
+            if got != want:
+                return {"reproduced": True, "detail": f"halmos.toml sets {name}; the command line says {' '.join(argv)}; the effective value is {got!r} (the file wins over an explicit command-line value)", "inputs": " ".join(argv)}
+    return {"reproduced": False, "detail": "explicit falsy command-line values win over the config file"}
 
 
 def replay_parse_dict(r):
@@ -537,7 +567,13 @@ def parse_dict_cases():
 
 
 def build_cases(tier="quick"):
-    return value_with_source_cases() + getattribute_cases() + solver_command_cases() + annotation_cases() + load_config_cases() + with_overrides_cases() + parse_dict_cases()
+    # scope of a function annotation: each test's configuration is derived from the contract's, not from the
+    # previous test's (the run_tests contract of the C20 pack)
+    from contracts import c20
+    from contracts.common import replay_script
+
+    ref = [Case(f"{PROP}/__main__.run_tests#annotation-scope", c.case, c.harness, replay=replay_script("annotation_scope.py", "two tests of one contract, only the first carries a @custom:halmos annotation"), sources=c.sources) for c in c20.main_cases() if c.unit.endswith("__main__.run_tests")]
+    return value_with_source_cases() + getattribute_cases() + solver_command_cases() + annotation_cases() + load_config_cases() + with_overrides_cases() + parse_dict_cases() + ref
 
 
 # ---------------------------------------------------------------------------------------
